@@ -13,7 +13,7 @@ from .c03 import BEATS_REF, _ancestors, _neg, _score_thr_key, add_entry_func, pu
 from .common import MatcherAtoms, assignments_to, labelmap_api, calls_resolving_to, matcher_loop, metric_enum_class, resolve_alias, single_def
 
 INFO = {
-    "explanation": "Path conditions of both add_labelmap_entry sites of MaximizeMergeMatching._match_instances are evaluated on the full truth table over (prediction assigned, reference assigned, metric direction, ordering(score,threshold), ordering(new combined score, recorded score)): (R14.1) prediction unassigned at both sites; (R14.2) a reference is first matched only by a single prediction meeting the threshold; (R14.3) a merge is accepted exactly on strict improvement in the metric's direction; (R14.4) the recorded score of the reference is updated with the justifying score in the same branch; (R14.5) the combined score is the matching metric on (reference array, prediction array, reference label, already matched predictions + candidate) of the uncropped pair. Delegated: the candidate scores the merge decisions start from are those of the pair's own arrays (R03.7). Further delegated: R03.3 (inclusive, exact threshold comparison), R03.1/R09.1 (no candidate pair lost), R15.8. Round 6: (R14.7) the merging matcher is run abstractly on four candidates (three predictions on one reference, one also on a second), all orderings, all outcomes of threshold tests and score comparisons, both metric directions, and replayed against the specification with the same outcomes; merged scores are named after the predictions actually handed to the metric, so a stale member list, a wrong recorded score or a non-strict comparison shows up; R14.3-R14.5 defer to it where the recorded score is kept in a form they do not read.",
+    "explanation": "Path conditions of both add_labelmap_entry sites of MaximizeMergeMatching._match_instances are evaluated on the full truth table over (prediction assigned, reference assigned, metric direction, ordering(score,threshold), ordering(new combined score, recorded score)): (R14.1) prediction unassigned at both sites; (R14.2) a reference is first matched only by a single prediction meeting the threshold; (R14.3) a merge is accepted exactly on strict improvement in the metric's direction; (R14.4) the recorded score of the reference is updated with the justifying score in the same branch; (R14.5) the combined score is the matching metric on (reference array, prediction array, reference label, already matched predictions + candidate) of the uncropped pair. Delegated: the candidate scores the merge decisions start from are those of the pair's own arrays (R03.7). Further delegated: R03.3 (inclusive, exact threshold comparison), R03.1/R09.1 (no candidate pair lost), R15.8. Round 6: (R14.7) the merging matcher is run abstractly on four candidates (three predictions on one reference, one also on a second), all orderings, all outcomes of threshold tests and score comparisons, both metric directions, and replayed against the specification with the same outcomes; merged scores are named after the predictions actually handed to the metric, so a stale member list, a wrong recorded score or a non-strict comparison shows up; R14.3-R14.5 defer to it where the recorded score is kept in a form they do not read. Round 8: R03.9 delegated (the enum's copy of a direction helper - the one the matcher calls - agrees with the value class's copy, also at a non-zero margin); scores plus / minus a zero margin are that score in the merge run.",
     "trusted_base": ["Python semantics of the modelled AST subset", "InstanceLabelMap predicates are inlined from their bodies"],
     "assumptions": ["all combinations of (prediction assigned, reference assigned) are reachable in the loop"],
     "not_decided": ["numerical value of the metric (C06/C07)", "that the final score >= best single candidate: follows from R14.2-R14.4 by induction, argued not mechanised"],
